@@ -282,10 +282,16 @@ func checkC12(r *Run) {
 			{"Init", func(o *HdrObj, cfg *Cfg) { o.H.Reset(); o.PV.Init(sameVals(o.PV.Contacts.Vals, cfg)) }},
 		}}
 	listIn := strs([]string{"<sip:a@b>;expires=5, \"q,\" <sip:c@d>;q=0.5, sip:e@f\r\nX", "*\r\nX", "<sip:1@h>,<sip:2@h>,<sip:3@h>,<sip:4@h>\r\nX", "\"open <sip:x>\r\nX", "n <sip:g@h>;tag=t;lr\r\nX"})
+	var many []string
+	for i := 0; i < 36; i++ {
+		many = append(many, fmt.Sprintf("<sip:%d@h>;expires=%d", i, i+1))
+	}
+	listIn = append(listIn, []byte(strings.Join(many, ",")+"\r\nX"), []byte(strings.Join(many[:34], ", ")+"\r\nX"))
 	var lcf []Cfg
 	for _, v := range caps {
 		lcf = append(lcf, Cfg{ValCap: v, HdrCap: -1})
 	}
+	lcf = append(lcf, Cfg{ValCap: 40, HdrCap: -1})
 	ctSp := &c12Space[sipsp.PContacts]{drv: contactsDrv, name: "contacts", inputs: listIn, cfgs: lcf, resets: []resetOp[sipsp.PContacts]{{"Reset", func(o *sipsp.PContacts, cfg *Cfg) { o.Reset() }}}}
 	paiSp := &c12Space[sipsp.PPAIs]{drv: paisDrv, name: "pais", inputs: listIn, cfgs: lcf[:1], resets: []resetOp[sipsp.PPAIs]{{"Reset", func(o *sipsp.PPAIs, cfg *Cfg) { o.Reset() }}, {"Init", func(o *sipsp.PPAIs, cfg *Cfg) { o.Init() }}}}
 	naSp := &c12Space[sipsp.PFromBody]{drv: nameAddrDrv, name: "name-addr", inputs: listIn, cfgs: []Cfg{{HdrType: int(sipsp.HdrFrom)}, {HdrType: int(sipsp.HdrContact)}}, resets: []resetOp[sipsp.PFromBody]{{"Reset", func(o *sipsp.PFromBody, cfg *Cfg) { o.Reset() }}}}
